@@ -81,7 +81,7 @@ root = tempfile.mkdtemp(prefix="vfseed_")
 outd = tempfile.mkdtemp(prefix="vfseedout_")
 res = {}
 try:
-    subprocess.check_call(["rsync", "-a", "--exclude", ".git", "--exclude", "tests/resources", "--exclude", "__pycache__", "/repo/", root + "/"])
+    subprocess.check_call(["rsync", "-a", "--exclude", ".git", "--exclude", "tests/resources/1.200806927", "--exclude", "tests/resources/SELF-1.181223995", "--exclude", "tests/resources/BASIC-*", "--exclude", "__pycache__", "/repo/", root + "/"])
     subprocess.check_call(["patch", "-p1", "-s", "-d", root, "-i", os.path.join(dest, "patch.diff")])
     env = dict(os.environ, VERIF_REPO_ROOT=root, VERIF_OUT_DIR=outd)
     for c in checks:
